@@ -134,7 +134,7 @@ func NewROLZCodecWithCtx(ctx *map[string]any) (*ROLZCodec, error) {
 				return nil, errors.New("ROLZ codec: invalid transform type")
 			}
 
-			if strings.Contains(transform, "ROLZX") {
+			if strings.Contains(strings.ToUpper(transform), "ROLZX") {
 				d, err = newROLZCodec2WithCtx(_ROLZ_LOG_POS_CHECKS2, ctx)
 				this.delegate = d
 			}
